@@ -50,6 +50,21 @@ BUILDER_SEARCH_ARGS = {
 }
 
 
+IDENT_SEARCH_ARGS = {       # results: 1000000 + n = header accepted with buffer size n, n = flatcc_verify_error n, -1 = read outside
+    'flatbuffers_type_hash_from_string': [],          # the string bytes are the witness buffer
+    'flatbuffers_type_hash_from_identifier': [],
+    'flatbuffers_identifier_from_type_hash': ['type_hash'],
+    'flatcc_verify_buffer_header': ['buf_addr', '*fid(-1 = NULL | 0, string bytes...)'],
+    'flatcc_verify_buffer_header_with_size': ['buf_addr', '*fid(-1 = NULL | 0, string bytes...)'],
+    'flatcc_verify_typed_buffer_header': ['buf_addr', 'typed', 'thash'],
+    'flatcc_verify_typed_buffer_header_with_size': ['buf_addr', 'typed', 'thash'],
+}
+REFMAP_SEARCH_ARGS = {
+    '_flatcc_refmap_hash': ['src'],
+    '_flatcc_refmap_above_load_factor': ['count', 'buckets'],
+}
+
+
 def _parse_zlist(s):
     s = s.strip()
     if s in ('[]', 'nil'): return []
@@ -70,7 +85,12 @@ def _search_one(ctx, conv_mod, area, leaf, names):
     if not m: return {'leaf': leaf, 'error': 'unparsed search output: ' + flat[:400]}
     bts, vals = _parse_zlist(m.group(1)), _parse_zlist(m.group(2))
     args, (c, mo) = vals[:-2], vals[-2:]
-    w = {'leaf': leaf, 'args': dict(zip(names, args)), 'buffer_hex': bytes(b & 255 for b in bts).hex() or '-',
+    if names and names[-1].startswith('*'):
+        ad = dict(zip(names[:-1], args)); ad[names[-1][1:]] = args[len(names) - 1:]
+        names = names[:-1] + ['_'] * (len(args) - len(names) + 1)
+    else:
+        ad = dict(zip(names, args))
+    w = {'leaf': leaf, 'args': ad, 'buffer_hex': bytes(b & 255 for b in bts).hex() or '-',
          'c_result': c, 'model_result': mo}
     if len(args) > len(names):        # get_offset_field: the disagreement is on *out, not on the verdict
         w['note'] = 'verdicts agree (ok); *out (c_result) differs from the model base (model_result)'
@@ -126,11 +146,24 @@ def regen_builder_leaves(ctx):
     return _regen(ctx, 'builder', 'Generated/Leaf_builder.v', 'Properties_C12c', 'LeafConvB', 'Builder', BUILDER_SEARCH_ARGS, 'Builder/EmitModel')
 
 
+def regen_ident_leaves(ctx):
+    """C17: flatcc_identifier.h conversions + the four buffer-header acceptors -> Generated/Leaf_ident.v, Properties_C17c"""
+    return _regen(ctx, 'ident', 'Generated/Leaf_ident.v', 'Properties_C17c', 'LeafConvI', 'Ident', IDENT_SEARCH_ARGS, 'IdentModel')
+
+
+def regen_refmap_leaves(ctx):
+    """C18: refmap.c hash and load-factor test -> Generated/Leaf_refmap.v, Properties_C18c"""
+    return _regen(ctx, 'refmap', 'Generated/Leaf_refmap.v', 'Properties_C18c', 'LeafConvR', 'Refmap', REFMAP_SEARCH_ARGS, 'RefmapModel')
+
+
+FAMILY_FUNCS = {'verifier': ('C01c', regen_leaves), 'builder': ('C12c', regen_builder_leaves),
+                'ident': ('C17c', regen_ident_leaves), 'refmap': ('C18c', regen_refmap_leaves)}
+
 if __name__ == '__main__':
-    # stand-alone driver: python3 -m checks.c01c_util [verifier|builder]   (honours VERIF_REPO)
+    # stand-alone driver: python3 -m checks.c01c_util [verifier|builder|ident|refmap]   (honours VERIF_REPO)
     fam = sys.argv[1] if len(sys.argv) > 1 else 'verifier'
-    ctx = lib.Ctx('C01c' if fam == 'verifier' else 'C12c', 'quick', 1, 'proof')
-    ok, msg = regen_leaves(ctx) if fam == 'verifier' else regen_builder_leaves(ctx)
+    ctx = lib.Ctx(FAMILY_FUNCS[fam][0], 'quick', 1, 'proof')
+    ok, msg = FAMILY_FUNCS[fam][1](ctx)
     print('ok' if ok else 'FAIL', msg)
     for t in ctx.theorems: print('  ', t['theorem'], '-', t['assumptions'])
     sys.exit(0 if ok else 1)
